@@ -235,7 +235,7 @@ class Evaluator:
             return [o]
         if isinstance(st, ast.If):
             test = self.subst(func, st.test, o.env)
-            d = self.decide(test)
+            d = simplify(test, self.decide)     # and / or / not over decided atoms
             if d is True:
                 return self._block(func, st.body, [o])
             if d is False:
@@ -410,3 +410,110 @@ def specialise(stmts, decide):
             if isinstance(st, (ast.Return, ast.Raise)):
                 return out
     return out
+
+
+# -- a function under a case ---------------------------------------------------
+
+def _clone_keep(n):
+    """clone() that keeps the model's links to nested functions/classes."""
+    if isinstance(n, list):
+        return [_clone_keep(x) for x in n]
+    if not isinstance(n, ast.AST):
+        return n
+    new = type(n)()
+    for f, v in ast.iter_fields(n):
+        setattr(new, f, _clone_keep(v))
+    for a in ("lineno", "col_offset", "end_lineno", "end_col_offset"):
+        if hasattr(n, a):
+            setattr(new, a, getattr(n, a))
+    for a in ("_orig", "_func", "_class"):
+        if hasattr(n, a):
+            setattr(new, a, getattr(n, a))
+    return new
+
+
+def _deep_spec(stmts, decide):
+    out = []
+    for st in stmts:
+        if isinstance(st, ast.If):
+            d = simplify(st.test, decide)
+            if isinstance(d, bool):
+                sub = _deep_spec(st.body if d else st.orelse, decide)
+                out.extend(sub)
+                if sub and isinstance(sub[-1], (ast.Return, ast.Raise, ast.Continue, ast.Break)):
+                    return out
+                continue
+            st.test = d
+            st.body = _deep_spec(st.body, decide) or [ast.copy_location(ast.Pass(), st)]
+            st.orelse = _deep_spec(st.orelse, decide)
+            out.append(st)
+            continue
+        if isinstance(st, (ast.FunctionDef, ast.AsyncFunctionDef, ast.ClassDef)):
+            out.append(st)
+            continue
+        for fld in ("body", "orelse", "finalbody"):
+            sub = getattr(st, fld, None)
+            if isinstance(sub, list) and sub and isinstance(sub[0], ast.stmt):
+                new = _deep_spec(sub, decide)
+                if fld == "body" and isinstance(st, (ast.For, ast.While)) and new and \
+                        isinstance(new[-1], ast.Continue):
+                    new = new[:-1]      # ending the round at its end says nothing
+                setattr(st, fld, new or ([ast.copy_location(ast.Pass(), st)]
+                                         if fld == "body" else []))
+        for h in getattr(st, "handlers", []) or []:
+            h.body = _deep_spec(h.body, decide) or [ast.copy_location(ast.Pass(), h)]
+        out.append(st)
+        if isinstance(st, (ast.Return, ast.Raise, ast.Continue, ast.Break)):
+            return out
+    return out
+
+
+_VIEWS = {}
+
+
+def case_view(f, decide, tag):
+    """The function `f` as it reads under a case: a copy of its definition
+    in which every `if` the case settles (at any depth, loops included) is
+    replaced by the branch taken.  The copy is a function of the model in its
+    own right (own flow graph, own reaching definitions), so a rule written
+    for one loop reads an unswitched pair of loops one case at a time.
+    `tag` names the case (views are cached per function and tag)."""
+    from .model import Func, own_nodes
+    k = (id(f), tag)
+    if k in _VIEWS:
+        return _VIEWS[k]
+    node = _clone_keep(f.node)
+    node.body = _deep_spec(node.body, decide) or [ast.copy_location(ast.Pass(), node)]
+
+    class _Cond(ast.NodeTransformer):
+        """conditional expressions the case settles"""
+        def visit_IfExp(self, n):
+            self.generic_visit(n)
+            d = simplify(n.test, decide)
+            if isinstance(d, bool):
+                return n.body if d else n.orelse
+            n.test = d
+            return n
+    node = _Cond().visit(node)
+    for n in ast.walk(node):
+        for ch in ast.iter_child_nodes(n):
+            ch._parent = n
+    node._parent = getattr(f.node, "_parent", None)
+    v = Func(f.name, f.qual, f.module, node, f.cls, f.outer)
+    for a in ("kind", "self_type", "inner_funcs", "inner_classes", "lambdas"):
+        setattr(v, a, getattr(f, a))
+    v.is_generator = any(isinstance(n, (ast.Yield, ast.YieldFrom)) for n in own_nodes(v))
+    v._case_of = f
+    v._case = tag
+    _VIEWS[k] = v
+    return v
+
+
+def names_decider(values):
+    """decide() for a case given as {variable name: truth value}."""
+    def decide(test):
+        if isinstance(test, ast.Name) and test.id in values:
+            return values[test.id]
+        return None
+    return decide
+
